@@ -323,7 +323,7 @@ package jet
 //@   loop 0 invariant true
 //@   callsite fieldByIndex 0 requires [field-paths-come-from-the-cache-of-the-values-type] {C06} has(cachedStructsFieldIndex, RvTypeOf(v)) && has(cachedStructsFieldIndex[RvTypeOf(v)], caller.key) && index == cachedStructsFieldIndex[RvTypeOf(v)][caller.key]
 //@   callsite fmt.Errorf count 11
-//@   callsite fmt.Errorf 8 requires [a-map-lookup-fails-only-for-a-key-that-cannot-be-converted] {C06,C17} !lastret("(reflect.Type).ConvertibleTo", 0)
+//@   callsite fmt.Errorf 8 requires [a-map-lookup-fails-only-for-a-key-that-cannot-be-converted] {C06,C17} !lastret("convertible", 0)
 //@   check [a-value-method-of-a-nil-pointer-is-an-error-not-a-callable] {C12,C06} result1 == nil && RvValid(result0) && result0 == lastret("(reflect.Value).MethodByName", 0) && lastret("indirect", 1) && RvKind(lastret("indirect", 0)) == 22 ==> !lastret("(reflect.Type).MethodByName", 1)
 //@   callsite (reflect.Type).MethodByName 0 requires [the-value-type-is-asked-for-the-same-method-name] {C12,C06} t == TElem(RvTypeOf(lastret("indirect", 0))) && name == indexAsStr
 //@   callsite (reflect.Value).MethodByName 0 requires [methods-are-looked-up-under-the-index-name] {C06} name == indexAsStr
@@ -539,6 +539,11 @@ package jet
 //@   ensures [balanced] SameS(st)
 //@   anypanic
 //@   exsures [runtime-valid-on-panic] RtX(st)
+//@ func convertible
+//@   props C14 C12 C06 C17
+//@   requires t != nil
+//@   ensures [convertible-means-the-conversion-will-not-panic] result ==> TConv(RvTypeOf(v), t) && ConvSafe(v, t)
+//@   ensures [only-inconvertible-types-and-too-short-slices-are-refused] !result ==> !TConv(RvTypeOf(v), t) || RvKind(v) == 23
 //@ func (*Runtime).evaluateArgs
 //@   props C07 C13 C10 C12 C14
 //@   requires RtOK(st) && WFArgs(args) && fnType != nil && TKind(fnType) == 19
@@ -952,6 +957,7 @@ package jet
 //@ axiom forallT(i, "interface{}", istype(i, "map[string]interface{}") ==> RvKeyType(RvTypeOf(RvOf(i))) == stringType && (refof(i) != 0 ==> !RvIsNil(RvOf(i))) && forallT(t, "reflect.Type", TAssign(t, TElem(RvTypeOf(RvOf(i))))))
 //@ axiom funcType != nil && cachedStructsFieldIndex != nil && ioutil.Discard != nil
 //@ axiom TKind(funcType) == 19
+//@ axiom TKind(stringType) == 24
 //@ axiom forallT(v, "reflect.Value", RvKind(v) == 19 && !RvIsNil(v) && istype(RvInterface(v), "Func") ==> as(RvInterface(v), "Func") != nil)
 //@ axiom forallT(t, "reflect.Type", forallT(u, "reflect.Type", TKind(t) == 23 && TKind(TElem(t)) == 8 && TKind(u) == 24 ==> TConv(t, u)))
 //@ axiom forallT(v, "reflect.Value", RvValid(v) && RvTypeOf(v) == safeWriterType ==> istype(RvInterface(v), "SafeWriter"))
